@@ -100,6 +100,26 @@ def run_polars(ops, data, lazy=False):
         return _exc(e)
 
 
+def run_polars_eager_model(ops, data):
+    """the same pipeline through PolarsModel(use_lazy_eval=False) on eager frames (a second realisation path)"""
+    try:
+        import data_algebra.polars_model
+
+        m = _state.get("polars_eager_model")
+        if m is None:
+            m = data_algebra.polars_model.PolarsModel(use_lazy_eval=False)
+            _state["polars_eager_model"] = m
+        dm = {k: inputs.to_polars(t, lazy=False) for k, t in data.items()}
+        with warnings.catch_warnings():
+            warnings.simplefilter("ignore")
+            res = m.eval(ops, data_map=dm)
+        return polars_result(res)
+    except BaseException as e:
+        if isinstance(e, (KeyboardInterrupt, SystemExit)):
+            raise
+        return _exc(e)
+
+
 def sqlite_conn():
     """One prepared in-memory connection per process."""
     c = _state.get("conn")
